@@ -288,6 +288,23 @@ class Explorer:
             self.record_violation(aid, it.solver.model())
         it.alloc_violation = alloc_violation
 
+        def vfMapOrder(it_, args, fn):
+            # every map iteration (range, reflect MapKeys) takes its order from a symbolic choice among
+            # identity / reversed / rotated by one (order independence is decided over these choices)
+            if args[0] is True:
+                def hook(it__, m, items):
+                    if len(items) < 2: return items
+                    k = it.choose(3, 'maporder')
+                    it.path.nondet.append(('vfMapOrderChoice', 'order', k))
+                    if k == 1: return items[::-1]
+                    if k == 2: return items[1:] + items[:1]
+                    return items
+                it.map_order_hook = hook
+            else:
+                it.map_order_hook = None
+            return None
+        P['vfMapOrder'] = vfMapOrder
+
         def vfIsSym(it_, args, fn):
             return True
         P['vfSymbolic'] = vfIsSym
@@ -339,6 +356,7 @@ class Explorer:
             it.frame = None
             it.path_instr0 = st.instrs
             it.alloc_cap = None
+            it.map_order_hook = None
             it.solver.push()
             outcome = 'ok'
             try:
